@@ -340,6 +340,47 @@ func (r *run) monitor(events []string, st *scheduler.VerifState, dump string) {
 			}
 		}
 	}
+	// C05: the terminating mark is kept for as long as the worker stays registered, and a worker that
+	// synchronizes within the worker timeout stays registered
+	if r.termSeen == nil {
+		r.termSeen = map[string]bool{}
+	}
+	marked := map[string]bool{}
+	present := map[string]bool{}
+	for i := range st.SizeClassQueues {
+		q := &st.SizeClassQueues[i]
+		id := r.w.pqIDFor(q.InstanceNamePrefix, q.Platform)
+		for _, wk := range q.Workers {
+			key := fmt.Sprintf("%d/%d/%s", id, q.SizeClass, parseWorkerID(wk.ID))
+			present[key] = true
+			if wk.Terminating {
+				marked[key] = true
+			}
+		}
+	}
+	for key := range r.termSeen {
+		if marked[key] {
+			continue
+		}
+		last, known := r.syncRet[key]
+		if t, ok := newRet[key]; ok {
+			_ = t // the call that returned in this segment re-registered the worker at the earliest at its entry
+		}
+		stale := !r.syncActive[key] && known && r.w.clk.now >= last+r.w.cfg.workerTimeout
+		if stale || !known {
+			delete(r.termSeen, key) // removed for not synchronizing (and possibly registered afresh): the mark is gone legitimately
+			continue
+		}
+		how := "is no longer registered"
+		if present[key] {
+			how = "is registered without the mark"
+		}
+		r.failf("violation", "C05", "C05.terminating_monotone", "worker %s was marked terminating and last synchronized at %d (worker timeout %d, now %d), but it %s", key, last, r.w.cfg.workerTimeout, r.w.clk.now, how)
+		delete(r.termSeen, key)
+	}
+	for key := range marked {
+		r.termSeen[key] = true
+	}
 	// C05: TerminateWorkers marks every registered worker that matches the pattern, whatever it is doing
 	if len(pf) == 4 && pf[0] == "term" && !r.released {
 		pat := patternMap(pf[3])
